@@ -1825,8 +1825,8 @@ pub fn run(rep: &Report) {
     }
     rep.run_regressions(&PushPop);
     rep.run_regressions(&CloneStage);
-    rep.explore(&PushPop, rep.tier.pick(4000, 60_000), 900);
-    rep.explore(&CloneStage, rep.tier.pick(3000, 40_000), 900);
+    rep.explore(&PushPop, rep.tier.pick(10_000, 60_000), 900);
+    rep.explore(&CloneStage, rep.tier.pick(8000, 40_000), 900);
     if rep.tier == Tier::Thorough {
         rep.note("thorough: same generators, larger case counts");
     }
